@@ -20,6 +20,10 @@ coercion -> resolvers:
                    JSON kind alone and mixed, empty / whitespace-only messages, ONE exception instance raised by
                    several fields, null (nullable and non-null positions), null list items; the same
                    fault at every field of one name; pairs of faults (thorough)
+  offset-0 faults  every document that starts at offset 0 (21 whose error node is the document / first
+                   operation / first fragment, all seeds, all fault documents; without faults, with null in
+                   every non-null `nn`, with ResolverError at every `a`) against the same text behind " ",
+                   LF, CRLF: same errors, locations shifted consistently
   return faults    finite float, nan, inf, -inf, huge int, bytes, set at leaf fields of each built-in scalar
 
 each through the executor/runtime configurations graphql_blocking (BlockingExecutor), process_graphql_query
@@ -379,6 +383,7 @@ def stage_of(text, variables, opname):
 # ------------------------------------------------------------------------------------------
 # the oracle
 
+UNLOCATED_VALIDATION_KINDS = ("Duplicate operation ", "Subscription ", "Unused fragment(s) ")
 LINE_TERMINATOR = re.compile(r"\r\n|\n|\r")
 
 
@@ -527,6 +532,16 @@ def check_result(text, stage, res, log, plan):
                 out.append(("path-not-list-of-str-int", repr(p)[:100]))
             else:
                 got_paths.append((p, err))
+    # locations present: every field error, and every validation error of a kind the tree reports with
+    # locations (baseline of the pinned tree: these three kinds come without any, at every offset)
+    if stage == "validate":
+        for err in errors:
+            if isinstance(err, dict) and not err.get("locations") and not str(err.get("message")).startswith(UNLOCATED_VALIDATION_KINDS):
+                out.append(("validation-error-without-location", repr(err)[:300]))
+    if stage == "execute":
+        for err in errors:
+            if isinstance(err, dict) and err.get("path") and not err.get("locations"):
+                out.append(("field-error-without-location", repr(err)[:300]))
     # data presence
     if stage in ("parse", "validate"):
         if "data" in resp:
@@ -634,7 +649,6 @@ def selftest():
     # (stub errors: the self-test must not depend on the library's own to_dict)
     def stub(**extra):
         o = Loc2("x", 1, 3, ["a"])
-        del o.d["locations"]
         o.d.update(extra)
         return o
 
@@ -657,6 +671,14 @@ def selftest():
     ev = stub(extensions={"retry": False})
     assert probs("{ a }", "execute", GraphQLResult(data={"a": None}, errors=[ev]), [[["a"], "Int", "raised", ["extv", 2]]]) == []
     assert probs("{ a }", "execute", GraphQLResult(data={"a": None}, errors=[e]), [[["a"], "Int", "raised", ["extv", 0]]]) == ["extensions-not-passed-through"]
+    noloc = Loc2("The anonymous operation must be the only defined operation.", 1, 1, None)
+    del noloc.d["path"], noloc.d["locations"]
+    assert probs("{ a } { s }", "validate", GraphQLResult(errors=[noloc])) == ["validation-error-without-location"]
+    noloc.d["message"] = 'Unused fragment(s) "F"'
+    assert probs("{ a } { s }", "validate", GraphQLResult(errors=[noloc])) == []
+    fe = Loc2("x", 1, 3, ["a"])
+    del fe.d["locations"]
+    assert probs("{ a }", "execute", GraphQLResult(data={"a": None}, errors=[fe]), [[["a"], "Int", "raised", None]]) == ["field-error-without-location"]
     vtext = "query(\n  $x: Int!) { a }"
     def verr(**kw):
         o = Loc2('Variable "$x" got invalid value', 1, 1, None)
@@ -773,6 +795,31 @@ SEEDS = [
     "query ($x: [Int!]! = [1, 2]) { echo(x: 1) }",
 ]
 
+# the error node is the document / the first operation / the first fragment, all at offset 0
+SHIFT_DOCS = [
+    "{ a } { s }",
+    "{ a } query B { s }",
+    "query A { a } query A { s }",
+    "query ($v: Int) { a }",
+    "query Q($v: Int, $w: Int) { a }",
+    "query @nope { a }",
+    "query Q @skip(if: true) { a }",
+    "mutation @nope { n }",
+    "fragment F on Query { ...G } fragment G on Query { ...F } { a }",
+    "fragment F on Query { ...F } { a }",
+    "fragment F on Query { a } { a }",
+    "fragment F on Query { a } fragment F on Query { s } { ...F }",
+    "fragment F on Nope { a } { ...F }",
+    "fragment F on Int { a } { a }",
+    "zzz: nn",
+    "query { zzz }",
+    "subscription { tick a }",
+    "subscription S { tick } query Q { a }",
+    "type T { a: Int } { a }",
+    "{ zzz }",
+    "nn",
+]
+
 SUBST = ['"', "\\", "{", "}", "(", "$", "\n", "\r", "u", "0", "é", "#"]
 
 VALID_FOR_FAULTS = [
@@ -883,6 +930,13 @@ def cases(tier):
             yield {"k": "ret", "text": doc, "leaf": leaf, "ret": r}
     for seed in SEEDS:
         yield {"k": "document", "text": seed}
+    # errors located at the very first character: a document and the same document shifted by one
+    # leading space / line terminator report the same errors with consistently shifted locations
+    for doc in SHIFT_DOCS + SEEDS + VALID_FOR_FAULTS:
+        if doc and doc == doc.lstrip(" \t\r\n,\ufeff"):
+            for plan in ({}, {"*.nn": "null"}, {"*.a": "err"}):
+                for prefix in (" ", "\n", "\r\n"):
+                    yield {"k": "shift", "text": doc, "prefix": prefix, "plan": plan}
     for seed in SEEDS:
         for off in range(len(seed)):
             for ch in SUBST:
@@ -956,8 +1010,79 @@ def _classes(text, variables, opname, plan, configs, st, as_document=False):
     return stage, out
 
 
+def _shift_loc(loc, prefix):
+    if prefix == " ":
+        return {"line": loc["line"], "column": loc["column"] + (1 if loc["line"] == 1 else 0)}
+    return {"line": loc["line"] + 1, "column": loc["column"]}
+
+
+def eval_shift(case, st=None):
+    """a document starting at offset 0 against the same document behind one ignored prefix"""
+    text, prefix, plan = case["text"], case["prefix"], case["plan"]
+    stage = stage_of(text, None, None)
+    if stage.startswith("parse"):
+        return []  # syntax error messages quote positions; truncation cases cover them
+    out = []
+    for cfg in ("blocking", "default"):
+        r0, _ = run_config(cfg, text, None, None, plan)
+        r1, _ = run_config(cfg, prefix + text, None, None, plan)
+        if st is not None:
+            st.n("evaluations", 2)
+            st.n("config:" + cfg, 2)
+        if isinstance(r0, Raised) or isinstance(r1, Raised):
+            if isinstance(r0, Raised) != isinstance(r1, Raised):
+                out.append(("shift-changes-outcome", "one raises, the other does not: %r / %r [%s]" % (r0, r1, cfg)))
+            continue
+        try:
+            e0 = r0.response().get("errors") or []
+            e1 = r1.response().get("errors") or []
+        except Exception as e:  # noqa
+            out.append(("response-raises:%s@%s" % (type(e).__name__, origin(e)), repr(e)[:200]))
+            continue
+        if st is not None:
+            st.outcome(("shift", stage, len(e0), sum(1 for e in e0 if e.get("locations"))))
+        key = lambda e: (str(e.get("message")), json.dumps(e.get("path")))  # noqa
+        if sorted(key(e) for e in e0) != sorted(key(e) for e in e1):
+            out.append(("shift-changes-errors", "errors %r vs %r behind %r [%s]" % ([key(e) for e in e0], [key(e) for e in e1], prefix, cfg)))
+            continue
+        rest = list(e1)
+        for e in e0:
+            cands = [x for x in rest if key(x) == key(e)]
+            want = [_shift_loc(l, "\n" if prefix != " " else " ") for l in (e.get("locations") or []) if isinstance(l, dict) and "column" in l and "line" in l]
+            # (an error attributed to the Document node stays at 1:1: the document starts at offset 0
+            #  whatever precedes its first token)
+            orig = [dict(line=l.get("line"), column=l.get("column")) for l in (e.get("locations") or []) if isinstance(l, dict)]
+
+            def ok(x):
+                got = [dict(line=l.get("line"), column=l.get("column")) for l in (x.get("locations") or [])]
+                return len(got) == len(want) and all(g == w or (g == o == {"line": 1, "column": 1}) for g, w, o in zip(got, want, orig))
+
+            hit = [x for x in cands if ok(x)]
+            if hit:
+                rest.remove(hit[0])
+                continue
+            x = cands[0]
+            rest.remove(x)
+            if bool(e.get("locations")) != bool(x.get("locations")):
+                out.append(("shift-loses-locations", "%r at offset 0 vs %r behind %r [%s]" % (e, x, prefix, cfg)))
+            else:
+                out.append(("shift-moves-locations-inconsistently", "%r vs %r behind %r [%s]" % (e, x, prefix, cfg)))
+    if st is not None:
+        st.nt(("shift", text, prefix, json.dumps(plan, sort_keys=True)))
+        st.n("stage:" + stage.split(":")[0])
+    res, seen = [], set()
+    for p_, d in out:
+        cls = "%s/%s" % (stage, p_)
+        if cls not in seen:
+            seen.add(cls)
+            res.append((cls, d))
+    return res
+
+
 def evaluate(case, st=None):
     k = case["k"]
+    if k == "shift":
+        return eval_shift(case, st)
     text = case["text"]
     variables = case.get("variables")
     opname = case.get("opname")
